@@ -69,6 +69,9 @@ type node struct {
 	sk     sock.Config
 	msk    []string // model of a sock.Config: "host:port" in order
 	snap   string
+	// unmodelled: derived through an input the documentation does not define (a nil fs.FS mount):
+	// only the immutability of every earlier value is checked, not what a guest observes
+	unmodelled bool
 	parent int
 	how    string
 }
@@ -302,7 +305,13 @@ func (tr *tree) apply(s step) string {
 			return ""
 		}
 		tr.noteChild(s.Node, s.Op)
-		tr.add(&node{kind: "mc", mc: c, mmc: m, parent: s.Node, how: how})
+		un := p.unmodelled
+		if s.Op == "mc.WithFSConfig" {
+			if fi := atoi(arg(0)); fi < len(tr.nodes) && tr.nodes[fi].unmodelled {
+				un = true
+			}
+		}
+		tr.add(&node{kind: "mc", mc: c, mmc: m, parent: s.Node, how: how, unmodelled: un})
 		return ""
 	}
 	if strings.HasPrefix(s.Op, "fs.") && p.kind == "fs" {
@@ -335,7 +344,7 @@ func (tr *tree) apply(s step) string {
 			m.mounts = append(m.mounts, mount{Guest: gp, ID: mid})
 		}
 		tr.noteChild(s.Node, s.Op)
-		tr.add(&node{kind: "fs", fs: c, mfs: m, parent: s.Node, how: how})
+		tr.add(&node{kind: "fs", fs: c, mfs: m, parent: s.Node, how: how, unmodelled: p.unmodelled || s.Op == "fs.WithFSMountNil"})
 		return ""
 	}
 	if strings.HasPrefix(s.Op, "rc.") && p.kind == "rc" {
@@ -404,7 +413,7 @@ func (tr *tree) genStep(t *rapid.T) step {
 		return step{"mc." + method, pi, args}
 	case "fs":
 		pi := tr.pick(t, "fs")
-		method := rapid.SampledFrom([]string{"WithFSMount", "WithFSMount", "WithDirMount", "WithReadOnlyDirMount"}).Draw(t, "method")
+		method := rapid.SampledFrom([]string{"WithFSMount", "WithFSMount", "WithDirMount", "WithReadOnlyDirMount", "WithFSMount", "WithDirMount", "WithFSMountNil"}).Draw(t, "method")
 		return step{"fs." + method, pi, []string{fmt.Sprint(rapid.IntRange(0, 5).Draw(t, "mount")), rapid.SampledFrom(guestPaths).Draw(t, "guest")}}
 	case "rc":
 		pi := tr.pick(t, "rc")
@@ -625,7 +634,7 @@ func eqStrs(a, b []string) bool {
 
 func (tr *tree) useMC(i int, withSock bool) string {
 	n := tr.nodes[i]
-	if n.kind != "mc" {
+	if n.kind != "mc" || n.unmodelled {
 		return ""
 	}
 	tr.uses++
